@@ -1323,20 +1323,25 @@ func (c *IPAMController) garbageCollectKnownLeaks() error {
 	// limit the number of concurrent IPs we attempt to release at once.
 	maxBatchSize := 10000
 
-	var opts []ipam.ReleaseOptions
-	leaks := map[string]*allocation{}
+	// Final check that each allocation is leaked. We prefer the cache when the hosting node has been
+	// deleted, as we're reasonably confident this is a leak. Otherwise, we go to the API server directly for extra confidence
+	// that the Pod is actually gone.
+	//
+	// This must complete for every confirmed leak before the per-handle check below looks at any of them: an
+	// allocation that is resurrected here also makes its whole handle ineligible, including siblings that
+	// happen to be visited earlier.
 	for id, a := range c.confirmedLeaks {
-		logc := log.WithFields(a.fields())
-
-		// Final check that the allocation is leaked. We prefer the cache when the hosting node has been
-		// deleted, as we're reasonably confident this is a leak. Otherwise, we go to the API server directly for extra confidence
-		// that the Pod is actually gone.
 		if c.allocationIsValid(a, a.knode == "") {
-			logc.Info("Leaked IP has been resurrected after querying latest state")
+			log.WithFields(a.fields()).Info("Leaked IP has been resurrected after querying latest state")
 			delete(c.confirmedLeaks, id)
 			a.markValid()
-			continue
 		}
+	}
+
+	var opts []ipam.ReleaseOptions
+	leaks := map[string]*allocation{}
+	for _, a := range c.confirmedLeaks {
+		logc := log.WithFields(a.fields())
 
 		// Ensure that all of the IPs with this handle are in fact leaked.
 		if !c.handleTracker.isConfirmedLeak(a.handle) {
